@@ -109,20 +109,24 @@ def replay(col, item):
     raised = None
     yielded = None
     read_back = None
+    hit = {"n": 0}          # was the injected fault point reached at all? (an implementation may take another route)
     try:
         # small copy chunks everywhere, so that contents span several chunks
         def copy7(fsrc, fdst, length=0):
             return shutil.copyfileobj(fsrc, fdst, 7)
         def copy_boom(fsrc, fdst, length=0):
+            hit["n"] += 1
             fdst.write(fsrc.read(3))
             raise Boom("copy")
         U.shutil = Proxy(shutil, copyfileobj=copy_boom if fault in ("copy", "copyout") else copy7)
         if fault == "mktmpdir":
             def no_dir(*a, **k):
+                hit["n"] += 1
                 raise Boom("mktmpdir")
             U.tempfile = Proxy(tempfile, TemporaryDirectory=no_dir)
         if fault == "mktmpfile":
             def no_file(*a, **k):
+                hit["n"] += 1
                 raise Boom("mktmpfile")
             U.tempfile = Proxy(tempfile, NamedTemporaryFile=no_file)
         if fault in ("opentarget", "openarchive") or (fault == "copy" and fmt == "zip"):
@@ -132,15 +136,18 @@ def replay(col, item):
                 if fault == "copy":
                     class ZipBoom(zipfile.ZipFile):
                         def write(self, *a, **k):
+                            hit["n"] += 1
                             raise Boom("copy")
                     U._known_compressions[key] = ZipBoom
                 else:
                     def opener(*a, **k):
+                        hit["n"] += 1
                         raise Boom(fault)
                     U._known_compressions[key] = opener
             if fault == "opentarget":
                 def faulty_open(path, mode="r", *a, **k):
                     if os.path.abspath(str(path)) == os.path.abspath(target) and "w" in mode:
+                        hit["n"] += 1
                         raise Boom("opentarget")
                     return open(path, mode, *a, **k)
                 U.open = faulty_open
@@ -204,6 +211,12 @@ def replay(col, item):
         else:
             U.open = saved["open"]
         tempfile.tempdir = sys_tmp
+    if fault not in ("none", "body") and known and hit["n"] == 0 and raised is None and not conf.get("truncated_archive"):
+        # the implementation never went through the instrumented name: this fault placement could not be injected,
+        # so the run was a fault-free one and is not judged against the faulty history
+        col.bump("fault_point_not_reached")
+        shutil.rmtree(work, ignore_errors=True)
+        return
     col.count(1)
     try:
         debris = sorted(os.listdir(owned_tmp))
